@@ -391,6 +391,8 @@ def entry_points(schema: Any, canon: Callable[[Any], Any]) -> dict[str, Callable
 
     def dec(res: Any, mode: str) -> Any:
         if mode == 'lax':
+            if not (isinstance(res, tuple) and len(res) == 2 and isinstance(res[1], list)):
+                return {'bad_shape': 'lax decoding did not return (data, error list)', 'type': type(res).__name__}
             return {'ok': {'data': canon(res[0]), 'errors': [err_key(e) for e in res[1]]}}
         return {'ok': {'data': canon(res)}}
 
@@ -550,6 +552,9 @@ def run_case(env: Env, case: dict, kinds: list[str], reqs: Optional[list], pend:
     for kind in kinds:
         for name, out in outs[kind].items():
             mode = name.rpartition(':')[2] if ':' in name else ('strict' if name.endswith('validate') else 'lax')
+            if isinstance(out, dict) and 'bad_shape' in out:
+                ctx.failure('lax decoding did not return (data, error list)', pc, {'entry': name, 'source': kind, 'out': out})
+                continue
             if isinstance(out, dict) and 'exc' in out:
                 # an exception that is not a validation error escaped
                 report(ctx, 'an entry point raised something else than a validation error', pc,
